@@ -219,7 +219,7 @@ func checkObjectReuse(run *core.Run, r *rand.Rand, m *openfgav1.AuthorizationMod
 	shared := graph.NewWeightedAuthorizationModelGraphBuilder()
 	edits := 0
 	compare := func(stage string) bool {
-		fresh := proto.Clone(m).(*openfgav1.AuthorizationModel)
+		fresh := gen.CloneExact(m) // (proto.Clone would fill in bare `this` wrappers, which the printer can tell apart)
 		run.Eval(3)
 		if got, want := wgKey(shared, m), wgKey(graph.NewWeightedAuthorizationModelGraphBuilder(), fresh); got != want {
 			run.Violation("reused-builder-answers-from-an-earlier-call", c, "fresh builder on a fresh copy: "+clipStr(want, 1500), stage+": "+clipStr(got, 1500)+"\n"+gen.PPModel(m))
